@@ -18,28 +18,12 @@ def run_pair(harness, driver, lines, timeout=20):
     return impl, pm.stdout.decode(errors="replace"), crashed
 
 def malformed(lines, model):
-    """A candidate in which some query receives two or more cursor calls after it reported its end
-    (or failed) is outside the op language: the generator emits at most one misuse call per query
-    (a second `Next` after exhaustion is the documented divergence D16 of the non-debug build), and
-    removing lines during shrinking must not manufacture one."""
-    import re
-    res = {}
-    for m in re.finditer(r"^#(\d+) (.*)$", model, re.M):
-        res[int(m.group(1))] = m.group(2)
-    done, misuse = set(), {}
-    for i, l in enumerate(lines):
-        t = l.split()
-        if len(t) < 2 or t[0] not in ("qnext", "qget", "qgetc", "qat", "qcount", "qclose"):
-            continue
-        q = t[1]
-        if q in done:
-            misuse[q] = misuse.get(q, 0) + 1
-            if misuse[q] >= 2:
-                return True
-        r = res.get(i + 1, "")
-        if t[0] == "qclose" or (t[0] == "qnext" and (r.startswith("ok 0") or r.startswith("panic"))):
-            done.add(q)
+    """Was: candidates with two or more cursor calls on a query after its end were rejected, because a
+    second `Next` after exhaustion re-iterated in the non-debug build (defect D16). Since the repair every
+    access after the end is rejected in every build and the generator issues several, so nothing is
+    excluded any more."""
     return False
+
 
 def differs(harness, driver, lines, project=None):
     impl, model, crashed = run_pair(harness, driver, lines)
